@@ -1,6 +1,6 @@
 """C07 / C20 rules: iterator level-step coupling and positioning agreement, query guards, sorted-view cache invalidation,
 compaction triggers, density counters."""
-from astu import strip, strip_all, walk, walkp, txt, short, is_this_field, field_name, stmts_of, always_throws, functions_by, local_decls
+from astu import C, ctxt, gt_pair, eq_const, strip, strip_all, walk, walkp, txt, short, is_this_field, field_name, stmts_of, always_throws, functions_by, local_decls
 from flow import Flow
 from vlib.core import ob
 
@@ -129,7 +129,9 @@ def query_guards(facts):
                 c = txt(s["c"])
                 if c in ("is_empty()",) and empty_at is None:
                     empty_at = i
-                if fn["name"] == "get_quantile" and ("<0" in c.replace(" ", "") or "<0.0" in c) and (">1" in c.replace(" ", "")) and range_at is None:
+                cc = c.replace(" ", "").replace("0.0", "0").replace("1.0", "1")
+                # rank < 0 || rank > 1 in either orientation of each comparison
+                if fn["name"] == "get_quantile" and "||" in cc and any(x in cc for x in ("(rank<0)", "(0>rank)")) and any(x in cc for x in ("(rank>1)", "(1<rank)")) and range_at is None:
                     range_at = i
                 continue
             if first_use is None:
@@ -294,12 +296,12 @@ def compaction_triggers(facts):
         if rect == "datasketches::density_sketch" and fn["name"] in ("update", "merge"):
             key = "density_sketch::%s:compaction-loop" % fn["name"]
             loops = []
-            walk(fn["body"], lambda n: loops.append(n) if n.get("k") == "While" and any(x.get("cname") == "compact" for x in _calls(n["b"])) else None)
+            walk(fn["body"], lambda n: loops.append(n) if n.get("k") in ("While", "For") and any(x.get("cname") == "compact" for x in _calls(n["b"])) else None)
             ifs = []
             walk(fn["body"], lambda n: ifs.append(n) if n.get("k") == "If" and any(x.get("cname") == "compact" for x in _calls(n.get("t"))) else None)
             if loops and not ifs:
                 c = txt(loops[0]["c"])
-                if "num_retained_" in c and ">=" in c and "levels_.size()" in c and "k_" in c:
+                if c.replace(" ", "") in (C("(num_retained_>=(k_*levels_.size()))"), C("(num_retained_>=(levels_.size()*k_))")):
                     out.append(ob("compaction.trigger", key, loops[0]["loc"], "discharged", "while (%s) compact()" % c, fn["qname"]))
                 else:
                     out.append(ob("compaction.trigger", key, loops[0]["loc"], "violated", "compaction loop guard is `%s`, not num_retained_ >= k_ * levels_.size()" % c, fn["qname"]))
